@@ -33,7 +33,11 @@ def keep(r):
         return "-r2m" in name
     if sel == "round3":
         return "-r3m" in name
-    return not name.startswith("refactor-") and "-r2m" not in name and "-r3m" not in name
+    if sel == "round4":
+        return "-r4m" in name
+    if sel == "round5":
+        return "-r5m" in name
+    return not name.startswith("refactor-") and not any(t in name for t in ("-r2m", "-r3m", "-r4m", "-r5m"))
 if sel == "refactor":
     print("| refactoring | change (behaviour preserving; the suite passes) | checks that raise an alarm |")
 else:
